@@ -341,6 +341,68 @@ def r12_8(chk, tier):
             chk.fail('R12.8', site, (b if db else a)['file'], (b if db else a)['l'], 'slice::%s differs between the two libraries: only jsonpath: [%s]; only jmespath: [%s]' % (
                 name, '; '.join(show(x) for x in da[:3]), '; '.join(show(x) for x in db[:3])), {'only_jsonpath': [show(x) for x in da], 'only_jmespath': [show(x) for x in db]}, a['q'])
 
+def r12_13(chk, tier, units=('jsonpath',), rid='R12.13'):
+    """Per-element error state in the selectors."""
+    chk.rule(rid, 'per-element error state: where a loop over elements calls an evaluation with a local std::error_code, tests it and goes on with the '
+                  'next element when it is set (an element for which the filter cannot be evaluated is just not selected), that error_code is '
+                  'fresh in every iteration - declared in the loop body or cleared before the call; declared once outside the loop, the first '
+                  'element that fails would deselect all the elements after it', floor=2)
+    table = {'jsonpath': ('jsonpath_selector.hpp', 'token_evaluator.hpp', 'jsonpath_expression.hpp', 'jsonpath_parser.hpp'), 'jmespath': ('jmespath.hpp',)}
+    n = 0
+    for unit in units:
+        facts = F.load([unit], tier)
+        if unit not in chk.units: chk.units.append(unit)
+        for fn in U.one_per_inst([f for f in facts.functions if f.get('body') is not None and not f.get('dep') and f['file'].endswith(table[unit])]):
+            loops = [x for x in A.walk_no_lambda(fn['body']) if x.get('k') in ('ForStmt', 'WhileStmt', 'CXXForRangeStmt', 'DoStmt') and x.get('body') is not None]
+            if not loops: continue
+            ecs = {d['id']: d for d in A.walk_no_lambda(fn['body']) if d.get('k') == 'VarDecl' and F.tname(fn, d.get('t')).replace('const ', '').strip() in ('std::error_code', 'error_code')}
+            if not ecs: continue
+            g = None
+            for lp in loops:
+                body = lp['body']
+                inside = set(d.get('id') for d in A.walk_no_lambda(body) if d.get('k') == 'VarDecl')
+                used = set()
+                for c in A.calls_in(body, no_lambda=True):
+                    for a in c.get('args') or []:
+                        sa = A.strip(a, casts=True)
+                        if sa is not None and sa.get('k') == 'DeclRefExpr' and sa.get('id') in ecs: used.add(sa['id'])
+                for eid in used:
+                    # innermost loop only: an error_code declared in an enclosing loop's body is judged against that loop
+                    if any(l2 is not lp and any(y is l2 for y in A.walk_no_lambda(body)) and eid in set(d.get('id') for d in A.walk_no_lambda(l2['body']) if d.get('k') == 'VarDecl') for l2 in loops): continue
+                    if g is None: g = C.CFG(fn['body'])
+                    # tests of the error_code inside the loop whose true edge stays in the loop
+                    stays = False; tested = False
+                    for nd in g.rpo:
+                        if nd.kind != 'cond' or not isinstance(nd.ast, dict): continue
+                        if not any(y is nd.ast or any(z is nd.ast for z in A.walk(y)) for y in [body]): continue
+                        t = A.strip(nd.ast, casts=True)
+                        refs = [y for y in A.walk(nd.ast) if y.get('k') == 'DeclRefExpr' and y.get('id') == eid]
+                        if not refs or G.comparison(nd.ast): continue
+                        tested = True
+                        te = [e for e in nd.succ if e.kind == 'edge' and e.label is True]
+                        if te and not any(x.kind in ('return',) or (x.kind == 'stmt' and any(s2 is g.exit_throw for s2 in x.succ)) or x.kind == 'break' for x in G.block_after(te[0])):
+                            # no return/throw directly in the error branch: does the branch leave the loop at all?
+                            reach = g.reachable_from(te[0])
+                            head = g.node_of(lp.get('cond')) if lp.get('cond') is not None else None
+                            if head is None or head.id in reach: stays = True
+                    # `bool t = ec ? false : ...` - the test is a conditional expression inside a statement
+                    for y in A.walk_no_lambda(body):
+                        if y.get('k') == 'ConditionalOperator' and any(z.get('k') == 'DeclRefExpr' and z.get('id') == eid for z in A.walk(y.get('cond'))):
+                            tested = True; stays = True
+                    if not tested or not stays: continue
+                    n += 1
+                    chk.analysed(fn)
+                    site = U.site(fn, 'loop@%d error_code %s' % (lp.get('l', 0) - fn['l'], ecs[eid].get('n')))
+                    cleared = any((A.is_call(y) and A.callee_name(y) == 'clear' and (A.strip(y.get('obj'), casts=True) or {}).get('id') == eid) or
+                                  (y.get('k') == 'CXXOperatorCallExpr' and y.get('oop') == '=' and (A.strip((y.get('args') or [None])[0], casts=True) or {}).get('id') == eid)
+                                  for y in A.walk_no_lambda(body))
+                    if eid in inside or cleared: chk.ok(rid, site, {'function': fn['q'], 'line': lp.get('l'), 'fresh': 'declared in the loop body' if eid in inside else 'cleared in the loop body'})
+                    else:
+                        chk.fail(rid, site, fn['file'], ecs[eid].get('l'), '%s: the error_code `%s` (line %s) is declared outside the loop at line %s, which tests it and goes on with the next element: '
+                                 'after the first element whose evaluation fails it stays set and every later element is treated as failing' % (
+                                     fn['n'], ecs[eid].get('n'), ecs[eid].get('l'), lp.get('l')), None, fn['q'])
+    chk.require(n >= 2, '%s: only %d loops with a per-element error_code found' % (rid, n))
+
 def r12_12(chk, facts):
     """Normalised paths exist whenever something is going to be done with them."""
     chk.rule('R12.12', 'path generation mask: both overloads of path_generator::generate (array index, member name) build a path node under the '
@@ -625,6 +687,7 @@ def run(chk, tier, only_rule=None):
     r12_10(chk, facts)
     r12_11(chk, facts)
     r12_12(chk, facts)
+    r12_13(chk, tier)
     r12_8(chk, tier)
     r12_5(chk, tier)
     c05.r05_6(chk, tier, units=['jsonpath'], floor=80)
